@@ -148,7 +148,7 @@ def do_rejected(r: c18.Runner, o: list, lab: Labels) -> str:
             key = ["id", "content_id", "original_id", "id_collision_with", "no_such_field"][b % 5]
             return n.replace(**{key: "x"})
         if kind == "replace_with_parent":
-            n = w.sel(a)
+            n = w.sel(a, lambda x: x.parent is None or type(x.parent).__name__ != "LDyn")
             excl = {id(y) for y in E.subtree(n)} | {id(y) for y in w.ancestors_of(n)} if n is not None else set()
             bad = _attached_elsewhere(w, excl)
             if n is None or not bad:
@@ -169,7 +169,7 @@ def do_rejected(r: c18.Runner, o: list, lab: Labels) -> str:
             lab.tag("attached-receiver")
             return n.replace_with(None)
         if kind == "replace_with_attach_fails":
-            n = w.sel(a, lambda x: not x.detached)
+            n = w.sel(a, lambda x: not x.detached and (x.parent is None or type(x.parent).__name__ != "LDyn"))
             stale = [s for s in _stale_parent_with_attached_child(w)
                      if n is not None and id(n) not in {id(y) for y in E.subtree(s)}
                      and not ({id(y) for y in E.subtree(s)} & {id(y) for y in w.ancestors_of(n)})
